@@ -27,6 +27,13 @@ def strata(pid, t, rnd):
     REQS = (3.0, 4.5, 7.0)
 
     def add(text, bg, large, spell_kind="tuple", **kw):
+        # (one int-tuple text in eight goes in as a tuple of float fractions of 255 - the same colour)
+        if spell_kind == "tuple" and pairs.is_rgb_ints(text) and isinstance(text, tuple) and rnd.random() < (0.3 if pid == "C04" else 0.125) and not kw.get("witness"):
+            if all(round((v / 255) * 255) == v for v in text) and not all(v in (0, 255) for v in text):
+                text, spell_kind = tuple(v / 255 for v in text), "fractuple"
+        if pid == "C01" and "runs" not in kw and len(specs) % 9 == 4:
+            # ... and once more with a report requested where none can be written (answers that come back are judged)
+            kw["runs"] = list(pairs.ALL_RUNS) + [(m_, v_, 2) for (m_, v_) in pairs.ALL_RUNS]
         specs.append(dict(text=text, bg=bg, large=large, spell=spell_kind, **kw))
 
     def spelled(c, kind):
